@@ -114,6 +114,7 @@ def make_job(method, st, noise, opts, d):
                 rep.add(f'{tag}/rejected', 'raises', 'discharged', 'pyvc-exec', note=f'constructor raised ValueError: {e.msg}')
                 return
             raise
+        C.queries_ok(S, rep, tag)
         spec = C.TaylorSpec(S, 0)
         orders_ok(S, spec, y1, Fraction(p), rep, tag, finding_prefix=finding)
         # one step is a function of (t, y, h, increments) only: the same step after a warm-up step of another length on the same
